@@ -38,6 +38,9 @@ type CleanCase struct {
 	// Deps: file / glob dependencies spread over the tasks (they overlap the outputs: a file may
 	// be read by one task and be another's output); what a task reads has no bearing on --clean
 	Deps []string `json:"deps,omitempty"`
+	// BadGlob: the first task also depends on "src/[*.c", a pattern the glob syntax rejects. spok may
+	// refuse to clean at all; if it reports success, everything designated is gone as usual.
+	BadGlob bool `json:"bad_glob,omitempty"`
 }
 
 var cleanDepPool = []string{"build/*.o", "**/*.tmp", "src/main.c", "bin/app", "dist/**/*.js", "*.tmp", "b*/*", "README.md", "a/b/c.out"}
@@ -101,6 +104,7 @@ func genCleanBody(t *rapid.T) CleanCase {
 	c.CleanTask = rapid.IntRange(0, 3).Draw(t, "clean_task") == 3
 	c.PreCache = rapid.Bool().Draw(t, "pre_cache")
 	c.NTasks = rapid.IntRange(1, 3).Draw(t, "ntasks")
+	c.BadGlob = rapid.IntRange(0, 7).Draw(t, "bad_glob") == 0
 	if rapid.IntRange(0, 2).Draw(t, "with_deps") == 0 {
 		c.Deps = rapid.SliceOfN(rapid.SampledFrom(cleanDepPool), 1, 3).Draw(t, "deps")
 	}
@@ -129,6 +133,9 @@ func (c CleanCase) source() string {
 		add(`"` + g + `"`)
 	}
 	deps := make([][]string, c.NTasks)
+	if c.BadGlob {
+		deps[0] = append(deps[0], `"src/[*.c"`)
+	}
 	for j, d := range c.Deps {
 		// shifted by one so that a pattern tends to be read by one task and written by another
 		deps[(j+1)%c.NTasks] = append(deps[(j+1)%c.NTasks], `"`+d+`"`)
@@ -283,6 +290,15 @@ func execClean(s *ev.Shard, b *sandbox.Box, c CleanCase) *rp.Fail {
 	}
 	if c.CleanTask {
 		// the user's task runs instead and spok itself removes nothing
+		if c.BadGlob && res.Exit != 0 {
+			// no task can run while a pattern in the file cannot be expanded: refusing is fine, touching anything is not
+			for _, ch := range changes {
+				if !sandbox.Under(ch.Path, cacheRel) {
+					return &rp.Fail{Sig: "removed-despite-clean-task", Size: size, Msg: fmt.Sprintf("%s: spok refused to run the clean task, yet %s was %s", desc, ch.Path, ch.What)}
+				}
+			}
+			return nil
+		}
 		if !contains(readLog(logPath), "cleaning") {
 			return &rp.Fail{Sig: "clean-task-not-run", Size: size, Msg: fmt.Sprintf("%s: a task named clean exists but its command did not run", desc)}
 		}
@@ -334,7 +350,7 @@ func execClean(s *ev.Shard, b *sandbox.Box, c CleanCase) *rp.Fail {
 		if _, still := after[cacheRel]; still {
 			return &rp.Fail{Sig: "cache-not-removed", Size: size, Msg: fmt.Sprintf("%s: the cache directory still exists after a successful --clean", desc)}
 		}
-	} else if !unsafe {
+	} else if !unsafe && !c.BadGlob {
 		return &rp.Fail{Sig: "clean-failed", Size: size, Msg: fmt.Sprintf("%s: every declared output is inside the project, yet --clean failed", desc)}
 	}
 	if s != nil {
